@@ -133,7 +133,7 @@ fn main() {
                 i += 2;
             }
             if cap == 0 {
-                cap = tier.pick(240, 3000);
+                cap = tier.pick(240, 4500);
             }
             let mut s = Sink::new(&prop, tier, shard, nshards, resume, progress.as_deref(), cap);
             s.seed = std::env::var("VERIF_SEED").ok().and_then(|x| x.parse().ok()).unwrap_or(0);
